@@ -1074,6 +1074,7 @@ func runC04(c *Ctx) {
 		c.Eval(true, "e2e")
 	})
 	flush()
+	runC04S3(c) // extension round 3: dispatch arms (c04_s3.go)
 }
 
 func c04HasModel(f []string) bool {
